@@ -8,12 +8,27 @@ from harness.props import c12 as _c12
 
 LEAN_PROPS = []                      # the theorems this part leans on are C12's; C15's own are in the core part
 LEAN_LEMMAS = []
-RULE = "the edit sequences of the C12 generator (a 60-case sample per run) judged by the directory-coherence oracle of C15"
+RULE = ("the edit sequences of the C12 generator (a 60-case sample per run) plus sequences in which a changed watcher cannot be made again "
+        "(the reload fails after the old watcher has been taken out; then the file is reverted), judged by the directory-coherence oracle of C15")
 ASSUMPTIONS = ["section names of one file are distinct ignoring letter case (files that violate this are known finding F24 of C12)"]
 TRUSTED_EXTRA = _c12.TRUSTED_EXTRA
 
-impl_run = _c12.impl_run
-impl_view = _c12.impl_view
+from harness import reloadsim as _R
+
+
+def impl_run(case):
+    if case.get("family") == "failing-readd":
+        # a version whose section cannot be turned into a watcher has no fresh start to compare with: the reloads only
+        return {"steps": _R.run_versions(case["environ"], _c12.texts_of(case)), "fresh": []}
+    return _c12.impl_run(case)
+
+
+def impl_view(case, obs):
+    if case.get("family") == "failing-readd" and "harness_exception" not in obs:
+        return {"model": "out-of-domain"}          # singleton is outside the Reload model: the driver says so too
+    return _c12.impl_view(case, obs)
+
+
 model_line = _c12.model_line
 model_parse = _c12.model_parse
 first_diff = _c12.first_diff
@@ -21,9 +36,31 @@ if hasattr(_c12, "views_equal"):
     views_equal = _c12.views_equal
 
 
+def _failing_readd(rng):
+    """a reload in which a CHANGED watcher cannot be made again (the constructor refuses `singleton` with numprocesses > 1): the
+    old watcher has been stopped and taken out by then — whatever the reload answers, list and name index must agree"""
+    c = _c12.gen_case(rng, wild=False)
+    vs = c["versions"]
+    k = rng.randrange(1, len(vs)) if len(vs) > 1 else None
+    if k is None or not vs[k]["watchers"]:
+        vs.append(_c12._copy(vs[-1]))
+        c["edits"].append(["noop"])
+        k = len(vs) - 1
+    keep = set(n for n, _ in vs[k - 1]["watchers"])
+    cands = [w for w in vs[k]["watchers"] if w[0] in keep] or vs[k]["watchers"]
+    w = rng.choice(cands)
+    w[1][:] = [o for o in w[1] if o[0] not in ("numprocesses", "singleton")] + [["singleton", "True"], ["numprocesses", str(rng.choice([2, 3]))]]
+    del vs[k + 1:]
+    del c["edits"][k:]
+    vs.append(_c12._copy(vs[k - 1]))            # the administrator reverts the file and reloads again
+    c["family"] = "failing-readd"
+    return c
+
+
 def generate(rng, tier):
     cases = [c for c in _c12.generate(rng, tier) if not any(_c12.has_clash(v) for v in c["versions"])]
-    return cases[:60 if tier == "quick" else 400]
+    cases = cases[:60 if tier == "quick" else 400]
+    return cases + [_failing_readd(rng) for _ in range(12 if tier == "quick" else 120)]
 
 
 def corpus():
